@@ -6,19 +6,23 @@ import (
 	"context"
 	"errors"
 	"fmt"
+	"io"
 	"runtime/debug"
 	"sort"
 	"strconv"
 	"strings"
 	"sync"
 
+	"google.golang.org/grpc/codes"
+	"google.golang.org/grpc/status"
 	"google.golang.org/protobuf/proto"
 	"google.golang.org/protobuf/types/known/wrapperspb"
 
 	"github.com/smart-core-os/sc-golang/pkg/group"
 )
 
-// resp is what a member returns: Msg 0 = nil message, k>0 = message m<k>; Err 0 = nil error, k>0 = error e<k>.
+// resp is what a member returns: Msg 0 = nil message, k>0 = message m<k>; Err 0 = nil error, k>0 = error e<k>
+// (k = class*100 + id, see makeErr).
 type resp struct {
 	Msg int `json:"msg"`
 	Err int `json:"err"`
@@ -55,6 +59,10 @@ type tcase struct {
 	Behs    []beh  `json:"members"`
 	Order   []int  `json:"order"`         // completion order: a permutation of 0..n-1 (the schedule)
 	PCancel int    `json:"parent_cancel"` // -1: never; k: the caller's context is cancelled after k completions
+
+	// set for the gated Group-adapter cases (gadapters.go): the call is a Group RPC, which returns a reduced
+	// value instead of the result slice
+	group *gcase
 }
 
 func (c tcase) n() int { return len(c.Behs) }
@@ -130,6 +138,10 @@ type run struct {
 	started chan struct{}
 	done    chan struct{}
 
+	mkMsg func(k int) proto.Message                                         // nil: wrapperspb strings
+	call  func(r *run, ctx context.Context, members []group.Member) // nil: pkg/group directly
+	value string                                                     // call != nil: the reduced value returned / last sent
+
 	panicMsg string
 	slice    []proto.Message
 	msg      proto.Message
@@ -146,7 +158,10 @@ func (r *run) msgOf(k int) proto.Message {
 	if m, ok := r.msgs[k]; ok {
 		return m
 	}
-	m := wrapperspb.String("m" + strconv.Itoa(k))
+	var m proto.Message = wrapperspb.String("m" + strconv.Itoa(k))
+	if r.mkMsg != nil {
+		m = r.mkMsg(k)
+	}
 	r.msgs[k] = m
 	return m
 }
@@ -160,9 +175,79 @@ func (r *run) errOf(k int) error {
 	if e, ok := r.errs[k]; ok {
 		return e
 	}
-	e := errors.New("e" + strconv.Itoa(k))
+	e := makeErr(k)
 	r.errs[k] = e
 	return e
+}
+
+// Error classes.  An error number k is class*100 + id: the strategies' contracts speak of "a member
+// fails" = its error is non-nil, whatever the error IS, so the members fail with every kind of error
+// value a real member produces - in particular with context errors of their OWN (a private deadline or
+// cancellation while the group's context is alive), wrapped ones, gRPC status errors of the same
+// meaning, net.Error-like timeouts and io.EOF.  The bare sentinels exist once (id 0).
+const (
+	ecPlain = iota
+	ecCanceled
+	ecDeadline
+	ecWrapCanceled
+	ecWrapDeadline
+	ecStatusCanceled
+	ecStatusDeadline
+	ecStatusUnavailable
+	ecTimeout
+	ecEOF
+	ecCount
+)
+
+var errClassName = [ecCount]string{"plain", "context.Canceled", "context.DeadlineExceeded", "wrapped-Canceled", "wrapped-DeadlineExceeded",
+	"status-Canceled", "status-DeadlineExceeded", "status-Unavailable", "net-timeout", "io.EOF"}
+
+func errSentinel(class int) bool { return class == ecCanceled || class == ecDeadline || class == ecEOF }
+
+// errNum builds the error number of a class; sentinels have the single id 0.
+func errNum(class, id int) int {
+	if errSentinel(class) {
+		return class * 100
+	}
+	return class*100 + 1 + (id-1)%99
+}
+
+type timeoutErr struct{ s string }
+
+func (e *timeoutErr) Error() string   { return e.s }
+func (e *timeoutErr) Timeout() bool   { return true }
+func (e *timeoutErr) Temporary() bool { return true }
+
+func makeErr(k int) error {
+	name := "e" + strconv.Itoa(k)
+	switch k / 100 {
+	case ecCanceled:
+		return context.Canceled
+	case ecDeadline:
+		return context.DeadlineExceeded
+	case ecWrapCanceled:
+		return fmt.Errorf("member gave up (%s): %w", name, context.Canceled)
+	case ecWrapDeadline:
+		return fmt.Errorf("member's own deadline (%s): %w", name, context.DeadlineExceeded)
+	case ecStatusCanceled:
+		return status.Error(codes.Canceled, name)
+	case ecStatusDeadline:
+		return status.Error(codes.DeadlineExceeded, name)
+	case ecStatusUnavailable:
+		return status.Error(codes.Unavailable, name)
+	case ecTimeout:
+		return &timeoutErr{name}
+	case ecEOF:
+		return io.EOF
+	}
+	return errors.New(name)
+}
+
+func errClassOf(k int) string {
+	if c := k / 100; c >= 0 && c < ecCount {
+		return errClassName[c]
+	}
+	return "plain"
 }
 
 // labels by identity: the contract is about *the* message/error a member returned, not an equal one.
@@ -252,6 +337,10 @@ func consumerMain(r *run, ctx context.Context, members []group.Member) {
 	}()
 	close(r.started)
 	c := r.c
+	if r.call != nil {
+		r.call(r, ctx, members)
+		return
+	}
 	if c.API == "x" {
 		r.slice, r.err = group.Execute(ctx, strategyConst[c.Strat], members)
 		return
@@ -285,6 +374,9 @@ func runCase(c tcase) obs {
 	r := &run{c: c, gates: make([]chan struct{}, n), ctxs: make([]context.Context, n), seen: make([]int, n),
 		actual: make([]resp, n), msgs: map[int]proto.Message{}, errs: map[int]error{},
 		started: make(chan struct{}), done: make(chan struct{})}
+	if c.group != nil {
+		c.group.prepare(r)
+	}
 	members := make([]group.Member, n)
 	for i := range members {
 		r.gates[i] = make(chan struct{})
@@ -295,11 +387,16 @@ func runCase(c tcase) obs {
 	defer pcancel()
 	o := obs{Ret: -1, Slice: c.sliceAPI()}
 
+	quiet := func() ([]gor, bool) { return waitQuiet(leakedBase) }
+	if c.group != nil {
+		base := goroutineIDs() // everything that exists before the case (incl. goroutines leaked by earlier cases)
+		quiet = func() ([]gor, bool) { return waitQuietOutside(base) }
+	}
 	go consumerMain(r, parent, members)
 	<-r.started
 	var last []gor
 	for k := 0; k <= n; k++ {
-		gs, ok := waitQuiet(leakedBase)
+		gs, ok := quiet()
 		last = gs
 		if !ok {
 			o.Stuck = fmt.Sprintf("no quiescence at point %d: %d goroutines", k, len(gs))
@@ -351,7 +448,9 @@ func runCase(c tcase) obs {
 		return o
 	}
 	o.Panic = r.panicMsg
-	if o.Slice {
+	if c.group != nil {
+		o.Msg = r.value
+	} else if o.Slice {
 		for _, m := range r.slice {
 			o.Res = append(o.Res, r.msgLabel(m))
 		}
@@ -374,15 +473,22 @@ func runCase(c tcase) obs {
 func (r *run) cancelState() string {
 	r.mu.Lock()
 	defer r.mu.Unlock()
+	// every member of one call is handed the same context: "x" if the contexts of the members invoked so far
+	// disagree (a member run under some other context than the one the call cancels)
+	st := "-"
 	for _, ctx := range r.ctxs {
 		if ctx != nil {
+			s := "0"
 			if ctx.Err() != nil {
-				return "1"
+				s = "1"
 			}
-			return "0"
+			if st != "-" && st != s {
+				return "x"
+			}
+			st = s
 		}
 	}
-	return "-"
+	return st
 }
 
 // canon is the code's answer in the driver's format.
@@ -394,6 +500,8 @@ func (o obs) canon(c tcase) string {
 	switch {
 	case o.Panic != "":
 		out = "panic"
+	case c.group != nil:
+		out = "val=" + dash(o.Msg) + " err=" + o.Err
 	case o.Slice:
 		out = "res=[" + strings.Join(o.Res, ",") + "] err=" + o.Err
 	default:
